@@ -10,9 +10,10 @@ open Voi Voi.FIR Voi.Spec
 structure FLProg where
   name : String
   nin : Nat
-  kinds : List Bool      -- true = field element
+  kinds : List Char      -- 'f' field element, 'b' predicate, 'y' 32-byte string
   outs : List Nat
   ops : List FOp
+  tree : Option FTree := none
 
 def parseFOp (ws : List String) : Option FOp :=
   match ws with
@@ -36,6 +37,12 @@ def parseFOp (ws : List String) : Option FOp :=
   | ["inv", a] => some (.inv a.toNat!)
   | ["sqrtV", a, b] => some (.sqrtV a.toNat! b.toNat!)
   | ["sqrtOk", a, b] => some (.sqrtOk a.toNat! b.toNat!)
+  | ["bytesConst", n] => some (.bytesConst n.toNat!)
+  | ["fromBytes", a] => some (.fromBytes a.toNat!)
+  | ["toBytes", a] => some (.toBytes a.toNat!)
+  | ["topBit", a] => some (.topBit a.toNat!)
+  | ["xorTop", a, b] => some (.xorTop a.toNat! b.toNat!)
+  | ["bytesEq", a, b] => some (.bytesEq a.toNat! b.toNat!)
   | _ => none
 
 def parseNats (s : String) : List Nat :=
@@ -50,20 +57,80 @@ def parseFLProg (line : String) : Option FLProg :=
     if ops'.length ≠ ops.length then none else
     match splitWords hd with
     | ["fprog", name, nin, kinds, outs] =>
-      some { name := name, nin := nin.toNat!, kinds := if kinds = "-" then [] else kinds.toList.map (· == 'f'), outs := parseNats outs, ops := ops' }
+      some { name := name, nin := nin.toNat!, kinds := if kinds = "-" then [] else kinds.toList, outs := parseNats outs, ops := ops' }
     | ["fprog", name, nin, kinds] =>
-      some { name := name, nin := nin.toNat!, kinds := if kinds = "-" then [] else kinds.toList.map (· == 'f'), outs := [], ops := ops' }
+      some { name := name, nin := nin.toNat!, kinds := if kinds = "-" then [] else kinds.toList, outs := [], ops := ops' }
     | _ => none
 
+/-- segment text `op ; op ; …` (possibly empty) -/
+def parseFOps (s : String) : Option (List FOp) :=
+  let parts := (s.splitOn " ; ").map splitWords |>.filter (· ≠ [])
+  let ops := parts.filterMap parseFOp
+  if ops.length = parts.length then some ops else none
+
+/-- `( L ops | ok|err outs )` / `( N ops | c neg T E )` on a token list -/
+def parseFTree : Nat → List String → Option (FTree × List String)
+  | 0, _ => none
+  | fuel+1, "(" :: kind :: rest =>
+    let seg := rest.takeWhile (· ≠ "|")
+    let rest' := (rest.dropWhile (· ≠ "|")).drop 1
+    match parseFOps (" ".intercalate seg) with
+    | none => none
+    | some ops =>
+      if kind = "L" then
+        match rest' with
+        | ok :: outs :: ")" :: r => some (.leaf ops (ok = "ok") (if outs = "-" then [] else parseNats outs), r)
+        | _ => none
+      else
+        match rest' with
+        | c :: neg :: r =>
+          match parseFTree fuel r with
+          | none => none
+          | some (t, r1) =>
+            match parseFTree fuel r1 with
+            | none => none
+            | some (e, r2) =>
+              match r2 with
+              | ")" :: r3 => some (.node ops c.toNat! (neg = "1") t e, r3)
+              | _ => none
+        | _ => none
+  | _, _ => none
+
+def parseFTreeLine (line : String) : Option FLProg :=
+  match splitWords line with
+  | "ftree" :: name :: nin :: kinds :: rest =>
+    match parseFTree 10000 rest with
+    | some (t, _) => some { name := name, nin := nin.toNat!, kinds := if kinds = "-" then [] else kinds.toList, outs := [], ops := [], tree := some t }
+    | none => none
+  | _ => none
+
 def parseFL (text : String) : List FLProg :=
-  (text.splitOn "\n").filterMap fun l => if l.startsWith "fprog " then parseFLProg l else none
+  (text.splitOn "\n").filterMap fun l =>
+    if l.startsWith "fprog " then parseFLProg l else if l.startsWith "ftree " then parseFTreeLine l else none
 
-def fopIsBool : FOp → Bool
-  | .bconst _ | .eq _ _ | .isNeg _ | .isZero _ | .bor _ _ | .band _ _ | .bxor _ _ | .sqrtOk _ _ => true
-  | _ => false
+/-- sort of the value an instruction produces: 'f' element, 'b' predicate, 'y' byte string -/
+def fopKind : FOp → Char
+  | .bconst _ | .eq _ _ | .isNeg _ | .isZero _ | .bor _ _ | .band _ _ | .bxor _ _ | .sqrtOk _ _ | .topBit _ | .bytesEq _ _ => 'b'
+  | .bytesConst _ | .toBytes _ | .xorTop _ _ => 'y'
+  | _ => 'f'
 
-def FLProg.outIsFe (p : FLProg) (i : Nat) : Bool :=
-  if i < p.nin then p.kinds.getD i true else !(fopIsBool (p.ops.getD (i - p.nin) (.bconst 0)))
+/-- sorts of all values of a run: inputs, then one per executed instruction -/
+def kindsAfter (ks : List Char) (ops : List FOp) : List Char := ks ++ ops.map fopKind
+
+def fmtOuts (ks : List Char) (e : Env) (outs : List Nat) : String :=
+  let k (i : Nat) : Char := ks.getD i 'f'
+  let vals := outs.filter (fun i => k i ≠ 'b')
+  let bs := outs.filter (fun i => k i = 'b')
+  "ok" ++ String.join (vals.map fun o => " " ++ toString (if k o = 'f' then get e o % Voi.Spec.p else get e o))
+       ++ String.join (bs.map fun o => " " ++ toString (get e o))
+
+/-- evaluate a tree, tracking the sorts along the path taken -/
+def runFTree : FTree → List Char → Env → String
+  | .leaf ops ok outs, ks, e => if ok then fmtOuts (kindsAfter ks ops) (run ops e) outs else "err"
+  | .node ops c neg t f, ks, e =>
+    let e' := run ops e
+    let ks' := kindsAfter ks ops
+    if cond (get e' c) neg then runFTree t ks' e' else runFTree f ks' e'
 
 def handleT2 (progs : List FLProg) (op : String) (a : List String) : String :=
   match op, a with
@@ -73,11 +140,9 @@ def handleT2 (progs : List FLProg) (op : String) (a : List String) : String :=
     | some p =>
       let e : Env := ins.map String.toNat!
       if e.length ≠ p.nin then "err arity" else
-      -- the real side decodes its inputs with SetBytes: bit 255 is not representable here, values are < 2^255
-      let r := run p.ops e
-      let fes := p.outs.filter p.outIsFe
-      let bs := p.outs.filter (fun i => !p.outIsFe i)
-      "ok" ++ String.join (fes.map fun o => " " ++ toString (get r o % Voi.Spec.p)) ++ String.join (bs.map fun o => " " ++ toString (get r o))
+      match p.tree with
+      | some t => runFTree t p.kinds e
+      | none => fmtOuts (kindsAfter p.kinds p.ops) (run p.ops e) p.outs
   | _, _ => "bad-op"
 
 end Voi.Drv
